@@ -32,6 +32,11 @@ type RunnerManager struct {
 	lock    sync.Mutex
 	runners []Runner
 	running atomic.Bool
+
+	// withRunners, if set, is run next to the runners, but only if there is at
+	// least one runner when Run starts. It is looked at under the lock in Run,
+	// so that the decision is made on the final list of runners.
+	withRunners Runner
 }
 
 // NewRunnerManager creates a new RunnerManager.
@@ -69,6 +74,9 @@ func (r *RunnerManager) Run(ctx context.Context) error {
 		return ErrManagerAlreadyStarted
 	}
 	runners := r.runners
+	if r.withRunners != nil && len(runners) > 0 {
+		runners = append(runners[:len(runners):len(runners)], r.withRunners)
+	}
 	r.lock.Unlock()
 
 	ctx, cancel := context.WithCancel(ctx)
